@@ -92,9 +92,11 @@ def subnetKey (a : Addr) (v4len v6len : Nat) : Key :=
   let bits := if a.is4 then v4len else v6len
   { is4 := a.is4, net := a.val >>> (w - bits) }
 
+/-- `netip.Prefix.Contains`: a prefix whose length does not fit its family is the invalid prefix
+(`netip.PrefixFrom` with `bits > BitLen`), which contains nothing. -/
 def Prefix.contains (p : Prefix) (a : Addr) : Bool :=
   let w := width a.is4
-  p.is4 == a.is4 && (a.val >>> (w - p.bits)) == (p.val >>> (w - p.bits))
+  decide (p.bits ≤ w) && p.is4 == a.is4 && (a.val >>> (w - p.bits)) == (p.val >>> (w - p.bits))
 
 structure Cfg where
   count : Nat
@@ -304,6 +306,38 @@ def Allowlist.consulRefresh (l : Allowlist) (resp : Option (List Addr)) : Allowl
   match resp with
   | none => l
   | some addrs => l.update (addrs.map hostPrefix)
+
+/-! ## Zoned client addresses
+
+The transport hands the limiter the client address as received; an IPv6 link-local client carries a
+zone (`fe80::1%eth0`).  `netip.Prefix.Contains` is false for every zoned address, networks having no
+zones.  Since the `fix:` commit `DynamicAllowlist.IsAllowed` and `DefaultRatelimiter.Check` remove
+the zone (`WithZone("")`) before the containment tests; the bucket key never depended on it
+(`Addr.Prefix` drops the zone). -/
+
+/-- A client address as handed over: the address proper and whether it carries a zone. -/
+structure ZAddr where
+  addr : Addr
+  zoned : Bool
+deriving Repr, DecidableEq
+
+/-- `netip.Prefix.Contains` on the address as given. -/
+def Prefix.containsZ (p : Prefix) (z : ZAddr) : Bool := !z.zoned && p.contains z.addr
+
+/-- `netip.Addr.WithZone("")`. -/
+def ZAddr.strip (z : ZAddr) : ZAddr := { z with zoned := false }
+
+/-- `DynamicAllowlist.IsAllowed` as it was: the two loops over the address as given. -/
+def Allowlist.isAllowedPreFix (l : Allowlist) (z : ZAddr) : Bool :=
+  l.persistent.any (fun p => p.containsZ z) || l.dynamic.any (fun p => p.containsZ z)
+
+/-- `DynamicAllowlist.IsAllowed` as it is: the zone is removed first. -/
+def Allowlist.isAllowedZ (l : Allowlist) (z : ZAddr) : Bool := l.isAllowedPreFix z.strip
+
+/-- The subnet test of `DefaultRatelimiter.Check` as it was / as it is. -/
+def ProfLim.coversPreFix (p : ProfLim) (z : ZAddr) : Bool :=
+  p.subnets.isEmpty || p.subnets.any (fun s => s.containsZ z)
+def ProfLim.coversZ (p : ProfLim) (z : ZAddr) : Bool := p.coversPreFix z.strip
 
 end Agd.Ratelimit
 
